@@ -1,5 +1,6 @@
 import NunavutVerif.Model.Tpl
 import NunavutVerif.Model.ProcState
+import NunavutVerif.Model.FilePP
 import NunavutVerif.Gen.TplFlows
 import NunavutVerif.Proto
 /-!
@@ -15,8 +16,16 @@ Driver for the C07 / C10 correspondence.  One request per line (strings in the P
   `files <reset 0|1> <pps> <counters> <texts>`  pps: `-` or comma list of `T` / `L<n>`; counters: comma list or `-`;
                                            texts: `|`-separated → written texts, `|`-separated
   `sort <strings>`                         `|`-separated (`!` = none) → sorted, same format
+  `fpp <inplace 0|1> <defmode> <stuball 0|1> <failOn> <py> <objs> <init> <jobs> <query>`
+        objs:  `;`-separated `L<k>` | `M<mode>` | `X<check 0|1>:<arg>,<arg>…` (`!` = empty command) | `C<k>` | `U<k>`; `-` = empty list
+        init:  `;`-separated `<path>:<bytes>:<mode>` or `-`;   jobs: `;`-separated `<G | K<srcmode>>:<allow 0|1>:<path>:<bytes>` or `-`
+        failOn, query: `,`-separated strings or `-`;  user post-processor `k` returns `path.k` if k >= 10, else the path
+        program = `stubProg` with marker "/* pp <decimal mode> */\n"
+        → `err=<none|valueError|…>|log=<events>|fs=<path>:<bytes>:<mode> or <path>:none, …`
+  `cliobjs <trim 0|1> <limit 0|1> <prog or !> <args , or -> <mode>`  → the CLI's list in the objs syntax
 -/
 open NunavutVerif NunavutVerif.Tpl NunavutVerif.ProcState NunavutVerif.LineBuffer NunavutVerif.Proto
+open NunavutVerif.FilePP (Obj Event Job JobKind File FS World)
 
 def parseSrc (s : String) : Option Src :=
   if s = "time" then some .time else if s = "absPath" then some .absPath
@@ -76,6 +85,96 @@ def parseReqs (s : String) : Option (List Req) :=
         pure ⟨k, b, p, q⟩
     | _ => none
 
+
+/-! ### file post-processors -/
+
+def parseStrList (s : String) : Option (List Str) :=
+  if s = "-" then some [] else (splitOnChar s ',').mapM decodeStr
+
+def parseObj (t : String) : Option Obj :=
+  if t.startsWith "L" then (t.drop 1).toString.toNat?.map Obj.line
+  else if t.startsWith "M" then (t.drop 1).toString.toNat?.map Obj.setMode
+  else if t.startsWith "C" then (t.drop 1).toString.toNat?.map Obj.custom
+  else if t.startsWith "U" then (t.drop 1).toString.toNat?.map Obj.unknown
+  else if t.startsWith "X" then
+    match splitOnChar (t.drop 1).toString ':' with
+    | [c, args] => do
+        let chk ← if c = "1" then some true else if c = "0" then some false else none
+        let cmd ← if args = "!" then some [] else (splitOnChar args ',').mapM decodeStr
+        pure (Obj.ext cmd chk)
+    | _ => none
+  else none
+
+def parseObjs (s : String) : Option (List Obj) :=
+  if s = "-" then some [] else (splitOnChar s ';').mapM parseObj
+
+def showObj : Obj → String
+  | .line k => s!"L{k}"
+  | .setMode m => s!"M{m}"
+  | .custom k => s!"C{k}"
+  | .unknown k => s!"U{k}"
+  | .ext cmd chk => s!"X{b01 chk}:" ++ (if cmd.isEmpty then "!" else ",".intercalate (cmd.map encodeStr))
+
+def showObjs (l : List Obj) : String := if l.isEmpty then "-" else ";".intercalate (l.map showObj)
+
+def parseInit (s : String) : Option (List (Str × File)) :=
+  if s = "-" then some [] else
+  (splitOnChar s ';').mapM fun t =>
+    match splitOnChar t ':' with
+    | [p, b, m] => do
+        let p ← decodeStr p; let b ← decodeStr b; let m ← m.toNat?
+        pure (p, ⟨b, m⟩)
+    | _ => none
+
+def parseJobs (s : String) : Option (List Job) :=
+  if s = "-" then some [] else
+  (splitOnChar s ';').mapM fun t =>
+    match splitOnChar t ':' with
+    | [k, a, p, b] => do
+        let kind ← if k = "G" then some JobKind.generate
+                   else if k.startsWith "K" then (k.drop 1).toString.toNat?.map JobKind.copy else none
+        let allow ← if a = "1" then some true else if a = "0" then some false else none
+        let p ← decodeStr p; let b ← decodeStr b
+        pure ⟨kind, p, b, allow⟩
+    | _ => none
+
+def showEvent : Event → String
+  | .reset k => s!"reset:{k}"
+  | .raiseUnknown => "raiseUnknown"
+  | .overwrite p a => s!"overwrite:{encodeStr p}:{b01 a}"
+  | .write p b l => s!"write:{encodeStr p}:{encodeStr b}:" ++ (if l.isEmpty then "-" else ",".intercalate (l.map toString))
+  | .copy p b m => s!"copy:{encodeStr p}:{encodeStr b}:{m}"
+  | .chmod p m => s!"chmod:{encodeStr p}:{m}"
+  | .exec argv c => s!"exec:{b01 c}:" ++ (if argv.isEmpty then "!" else ",".intercalate (argv.map encodeStr))
+  | .custom k p => s!"custom:{k}:{encodeStr p}"
+
+def showErr : Option FilePP.Err → String
+  | none => "none"
+  | some .valueError => "valueError"
+  | some .permissionError => "permissionError"
+  | some .fileNotFound => "fileNotFound"
+  | some .calledProcessError => "calledProcessError"
+
+def tieRen (k : Nat) (p : Str) : Str := if k ≥ 10 then p ++ ('.' :: (toString k).toList) else p
+
+def tieMarker (mode : Nat) : Str := "/* pp ".toList ++ (toString mode).toList ++ " */\n".toList
+
+def initFS : List (Str × File) → FS
+  | [] => fun _ => none
+  | (p, f) :: rest => (initFS rest).set p (some f)
+
+def fppAnswer (inplace : Bool) (defMode : Nat) (all : Bool) (failOn : List Str) (py : Str) (objs : List Obj)
+    (init : List (Str × File)) (jobs : List Job) (query : List Str) : String :=
+  let sem := if inplace then FilePP.callInPlace py tieRen else FilePP.callReal py tieRen
+  let w := FilePP.runWorld (FilePP.stubProg tieMarker all failOn) tieRen defMode sem objs jobs (initFS init)
+  let log := w.log.reverse
+  let fs := query.map fun q =>
+    match w.fs q with
+    | some f => s!"{encodeStr q}:{encodeStr f.bytes}:{f.mode}"
+    | none => s!"{encodeStr q}:none"
+  s!"err={showErr w.err}|log=" ++ (if log.isEmpty then "-" else ";".intercalate (log.map showEvent)) ++
+    "|fs=" ++ (if fs.isEmpty then "-" else ",".intercalate fs)
+
 def answer (line : String) : String :=
   match line.splitOn " " with
   | ["flags"] =>
@@ -114,6 +213,19 @@ def answer (line : String) : String :=
       match parseStrs strs with
       | some l => showStrs (sortStrs l)
       | none => "bad-op"
+  | ["fpp", inplace, defMode, all, failOn, py, objs, init, jobs, query] =>
+      match defMode.toNat?, parseStrList failOn, decodeStr py, parseObjs objs, parseInit init, parseJobs jobs,
+            parseStrList query with
+      | some dm, some fo, some py, some objs, some init, some jobs, some query =>
+          if (inplace ≠ "0" ∧ inplace ≠ "1") ∨ (all ≠ "0" ∧ all ≠ "1") then "bad-op"
+          else fppAnswer (inplace = "1") dm (all = "1") fo py objs init jobs query
+      | _, _, _, _, _, _, _ => "bad-op"
+  | ["cliobjs", trim, limit, prog, args, mode] =>
+      match mode.toNat?, parseStrList args, (if prog = "!" then some none else (decodeStr prog).map some) with
+      | some m, some args, some prog =>
+          if (trim ≠ "0" ∧ trim ≠ "1") ∨ (limit ≠ "0" ∧ limit ≠ "1") then "bad-op"
+          else showObjs (FilePP.cliObjs (trim = "1") (limit = "1") (prog.map fun p => (p, args)) m)
+      | _, _, _ => "bad-op"
   | _ => "bad-op"
 
 def main : IO Unit := serve answer
